@@ -8,8 +8,10 @@
 //! * `report`  – evidence / replay / known-findings handling and the process exit protocol.
 
 pub mod auth;
+pub mod cli;
 pub mod engine;
 pub mod envx;
+pub mod ev;
 pub mod report;
 
 pub use engine::{explore, Bounds, StepCtx, Violation, World};
